@@ -2,7 +2,7 @@ IMPORTS = """From Coq Require Import List Bool Arith NArith Lia Relations Permut
 Import ListNotations.
 From BB Require Import BN Brute SpaceFacts TrapFacts PercolateFacts AttractorFacts Diagram Invariants Checks Filter
   Strict PetriNet Control Meta FilterFacts PetriNetFacts TrappistFacts DiagramStruct DiagramSem1 DiagramCache
-  DiagramDepth DiagramComplete Termination ControlFacts MetaFacts Candidates StrictFacts MinExpandFacts CandidatesFacts SymbolicTest SymbolicTestFacts Signed ReductionFacts ControlFacts2 Main."""
+  DiagramDepth DiagramComplete Termination ControlFacts MetaFacts Candidates StrictFacts MinExpandFacts CandidatesFacts SymbolicTest SymbolicTestFacts Signed ReductionFacts ControlFacts2 Main Blocks BlocksFacts."""
 
 EX_NET = """
 (* non-vacuity: two bistable switches; x0'=x1, x1'=x0, x2'=x3, x3'=x2 *)
@@ -70,7 +70,8 @@ whose exactness is min_traps_b_spec.""",
            ("minimal_space_expansion_complete", "expand_min_complete", "... and from any diagram satisfying the invariants"),
            ("skip_remaining_exact", "skip_remaining_exact", "completion of an early-stopped diagram by skip_remaining"),
            ("leaves_always_minimal", "run_LeafOK", "in every reachable diagram (any history) an expanded node without successors is a minimal trap space"),
-           ("no_duplicates", "minimal_nodes_unique", None)],
+           ("no_duplicates", "minimal_nodes_unique", None),
+           ("block_expansion_leaves_minimal", "expand_block_LeafOK_strong", "source-block expansion (model Blocks.v, replayed against the code): every leaf is a minimal trap space")],
  examples=EX_NET + """
 Example C03_example : length (min_traps_b ex_sw (top_space 4)) = 4.
 Proof. vm_compute. reflexivity. Qed.
@@ -86,7 +87,10 @@ such state yields a Hierarchy (bfs_complete + the invariants), i.e. the same dia
            ("step_NoStubEdges", "step_NoStubEdges", None), ("step_SWF", "step_SWF", None),
            ("expand_one_canonical", "expand_one_canonical", "what a single node expansion establishes, atomically"),
            ("expand_one_raise_unchanged", "expand_one_raise_unchanged", "a raised motif-limit error changes neither edges nor flags"),
-           ("bfs_complete", "bfs_complete", "continuing with an unrestricted BFS expands everything")],
+           ("bfs_complete", "bfs_complete", "continuing with an unrestricted BFS expands everything"),
+           ("block_expansion_without_source_shortcuts_is_plain", "expand_block_Faithful", None),
+           ("block_expansion_no_stub_edges", "expand_block_NoStubEdges", None), ("block_expansion_wellformed", "expand_block_SWF", None),
+           ("continuation_gives_the_fresh_hierarchy", "bfs_after_anything", None), ("hierarchy_unique", "hierarchy_unique_weak", None)],
  examples=EX_NET + """
 Example C04_example : Forall plain [OExpandNode 0; ODfs (Some 1) (Some 0) (Some 3); OBfs None (Some 1) None].
 Proof. repeat constructor. Qed.
@@ -236,7 +240,7 @@ and the watchdog of the run only.""",
            ("raise_depth_fuel_irrelevant", "raise_depth_fuel_irrelevant", "depth propagation stops by itself (acyclicity)"),
            ("strict_loop_fuel_enough", "strict_loop_fuel_enough", None),
            ("reach_list_complete", "reach_list_complete", "the reachability worklist finishes within 2^n iterations"),
-           ("symbolic_test_terminates", "symbolic_test_terminates", None), ("unfixed_loop_can_stall", "noforce_can_stall", "defect D6, formally"),
+           ("block_expansion_terminates", "expand_block_terminates", None), ("symbolic_test_terminates", "symbolic_test_terminates", None), ("unfixed_loop_can_stall", "noforce_can_stall", "defect D6, formally"),
            ("fixed_loop_answers_on_that_instance", "stall_fixed_answer", None)],
  examples="")
 
@@ -246,7 +250,8 @@ against (Diagram.cur_tag); CacheOK says every set field carries the node's CURRE
 run compares which fields are set after every operation and judges the cached values themselves.""",
  theorems=[("step_CacheOK", "step_CacheOK", None), ("run_CacheOK", "run_CacheOK", None), ("expand_one_CacheOK", "expand_one_CacheOK", None),
            ("q_cands_CacheOK", "q_cands_CacheOK", None), ("q_seeds_CacheOK", "q_seeds_CacheOK", None), ("q_sets_CacheOK", "q_sets_CacheOK", None),
-           ("reclaim_CacheOK", "reclaim_CacheOK", None), ("not_vacuous", "stale_not_CacheOK", "CacheOK really excludes stale data")],
+           ("reclaim_CacheOK", "reclaim_CacheOK", None), ("not_vacuous", "stale_not_CacheOK", "CacheOK really excludes stale data"),
+           ("block_expansion_CacheOK", "expand_block_CacheOK", "source shortcuts and clean-block bookkeeping of expand_block (after fix 3581ec3)")],
  examples="")
 
 SPEC["C15"] = dict(title="Early stops and limit errors leave a valid, resumable diagram", comment="""
@@ -257,7 +262,8 @@ unrestricted BFS/DFS completes to a Hierarchy (bfs_complete / dfs_complete).""",
  theorems=[("step_SWF", "step_SWF", None), ("step_Faithful_all", "step_Faithful_all", None), ("step_NoStubEdges", "step_NoStubEdges", None),
            ("step_CacheOK", "step_CacheOK", None), ("step_extends", "step_extends", "nothing is ever removed or renumbered"),
            ("expand_one_raise_unchanged", "expand_one_raise_unchanged", None), ("bfs_complete", "bfs_complete", "True from an unrestricted BFS means everything is expanded"),
-           ("dfs_complete", "dfs_complete", None)],
+           ("dfs_complete", "dfs_complete", None), ("block_expansion_any_result", "expand_block_SWF", "also for block expansion, whatever it returns"),
+           ("block_expansion_extends", "expand_block_extends", None)],
  examples="")
 
 SPEC["C16"] = dict(title="Serialization and memory reclamation are transparent", comment="""
